@@ -1139,6 +1139,7 @@ func (h alphHarness) Exec(p *simkit.Program) *simkit.Result {
 		}
 		if !s.aborting && p.Prop == "C09" {
 			s.settleAndCheck()
+			s.failingNodeEpilogue()
 		}
 		res.SimNs = int64(s.now())
 		s.mu.Lock()
@@ -1443,6 +1444,23 @@ func (s *alphSim) settleAndCheck() {
 	}
 }
 
+// failingNodeEpilogue (after the liveness verdict): the node starts failing one kind of request while
+// a new event is waiting to be fetched. Whatever the watcher does about it (it restarts, by design),
+// it must not hammer the node: the livelock detector in release() watches.
+func (s *alphSim) failingNodeEpilogue() {
+	if s.prog.C("epilogue", 0) == 1 && len(s.res.Violations) == 0 && !s.aborting {
+		kinds := []string{"page", "page", "count", "header", "canonical", "height"}
+		k := kinds[int(s.prog.C("epilogue_kind", 0))%len(kinds)]
+		s.emit(0, 1, 0, 0)
+		s.mu.Lock()
+		s.nFaults++
+		s.faults = append(s.faults, faultWindow{kind: k, code: int(s.prog.C("epilogue_code", 0)) % 4, serial: s.nFaults, from: s.now(), until: s.now() + 6*s.poll})
+		s.mu.Unlock()
+		s.pump(s.now() + 8*s.poll)
+		s.stats.Probe("failing-node-epilogue")
+	}
+}
+
 func (alphHarness) Gen(seed uint64, prop, tier string) *simkit.Program {
 	r := simkit.NewRng(seed, "alphsim/"+prop)
 	p := &simkit.Program{Cfg: map[string]int64{}}
@@ -1457,6 +1475,9 @@ func (alphHarness) Gen(seed uint64, prop, tier string) *simkit.Program {
 	}
 	if mainnet {
 		p.Cfg["mainnet"] = 1
+	}
+	if prop == "C09" && r.P(0.3) {
+		p.Cfg["epilogue"], p.Cfg["epilogue_kind"], p.Cfg["epilogue_code"] = 1, int64(r.Intn(6)), int64(r.Intn(4))
 	}
 	level := func() int64 {
 		switch r.Pick(5, 3, 1) {
